@@ -25,7 +25,28 @@ ANN = {'id': '# id: %s', 'title': '# title: "T %s"', 'description': '# descripti
 WS = [' ', '\n', '\n\n', ' \n\t', '\r\n', '   ']
 
 
+# characters that are neither ordinary text nor HPL white space everywhere: inside a string they are content, between
+# tokens they are white space (\f, \r, \t) or illegal (the others) - for the file exactly as for the property alone
+EXOTIC = ['\x0b', '\x0c', '\x1c', '\x1d', '\x1e', '\x85', '\u2028', '\u2029', '\r', '\t', '\xa0', '\x00']
+
+
+def exotic_variants(text):
+    """The member text with one exotic character put inside its first string literal / in place of one blank between tokens."""
+    out = []
+    for ch in EXOTIC:
+        i = text.find('"')
+        if i >= 0:
+            out.append(text[:i + 1] + 'q' + ch + text[i + 1:])
+        j = text.rfind(' ')
+        if j >= 0:
+            out.append(text[:j] + ch + text[j + 1:])
+            out.append(text[:j] + ' ' + ch + text[j + 1:])
+    return out
+
+
 def member_text(m, n, rnd):
+    if 'raw' in m:
+        return m['raw']
     lines = [ANN[k] % ((m.get('idval') or 'p%d' % n) if k == 'id' else n) for k in m['ann']]
     sep = rnd.choice(WS)
     return sep.join(lines + [POOL[m['p'] - 1]])
@@ -76,6 +97,18 @@ def run(replay=None):
         same_id.append([{'p': a, 'ann': ['id', 'title'], 'idval': 'shared'}, {'p': b, 'ann': ['id'], 'idval': 'shared'}])
         same_id.append([{'p': a, 'ann': ['id'], 'idval': 'shared'}, {'p': b, 'ann': []}, {'p': a, 'ann': ['description', 'id'], 'idval': 'shared'}])
     files += same_id
+    # members containing exotic characters (inside strings / between tokens), alone and next to ordinary members
+    nex = 0
+    for p, ann in ((1, ['title']), (3, ['id', 'description']), (4, []), (5, ['title', 'id']), (7, ['description'])):
+        base = member_text({'p': p, 'ann': ann}, 9, rnd)
+        base2 = base.replace('x > 0', 'x > 0 and s = "lit"').replace('y = 1', 's = "lit"')
+        for v in exotic_variants(base) + (exotic_variants(base2) if base2 != base else []):
+            m = {'p': p, 'ann': ann, 'raw': v}
+            files.append([m])
+            if nex % 3 == 0 or thorough:
+                files.append([{'p': 2, 'ann': ['id']}, m, {'p': 6, 'ann': []}])
+            nex += 1
+    rep.count('files_with_exotic_characters', nex)
     files.append([])
     rep.count('files', len(files))
     events, info = [], {}
